@@ -20,6 +20,7 @@ pub struct Pool {
     offset_counter: usize,
     protect: bool,
     in_use: [bool; SLOTS],
+    protected: [bool; SLOTS],
 }
 
 impl Pool {
@@ -35,7 +36,7 @@ impl Pool {
             )
         };
         assert!(base != libc::MAP_FAILED, "mmap failed");
-        Pool { base: base as *mut u8, next: 0, offset_counter: 0, protect, in_use: [false; SLOTS] }
+        Pool { base: base as *mut u8, next: 0, offset_counter: 0, protect, in_use: [false; SLOTS], protected: [false; SLOTS] }
     }
 
     /// hands out the next slot (read/write, used region filled with 0xA5) and an in-slot offset
@@ -48,12 +49,13 @@ impl Pool {
             assert!(tries <= SLOTS, "block pool exhausted");
         }
         self.in_use[self.next] = true;
+        let was_protected = core::mem::replace(&mut self.protected[self.next], false);
         let slot = unsafe { self.base.add(self.next * SLOT_SIZE) };
         self.next = (self.next + 1) % SLOTS;
         self.offset_counter += 1;
         let off = (self.offset_counter * 7 * 16) % MAX_OFFSET;
         unsafe {
-            if self.protect {
+            if was_protected {
                 libc::mprotect(slot as *mut _, SLOT_SIZE, libc::PROT_READ | libc::PROT_WRITE);
             }
             core::ptr::write_bytes(slot.add(off), 0xA5, total);
@@ -70,13 +72,15 @@ impl Pool {
         self.in_use = [false; SLOTS];
     }
 
-    fn poison(&mut self, slot: *mut u8) {
+    /// the slot is given back: its used region is filled with 0xA5 and (with `protect`) made inaccessible
+    fn poison(&mut self, slot: *mut u8, at: *mut u8, total: usize) {
         let idx = (slot as usize - self.base as usize) / SLOT_SIZE;
         self.in_use[idx] = false;
         unsafe {
+            core::ptr::write_bytes(at, 0xA5, total);
             if self.protect {
-                core::ptr::write_bytes(slot, 0xA5, MAX_OFFSET + 1024);
                 libc::mprotect(slot as *mut _, SLOT_SIZE, libc::PROT_NONE);
+                self.protected[idx] = true;
             }
         }
     }
@@ -116,7 +120,7 @@ impl<T> InBlock<T> {
             let alloc = BumpAllocator::new(NonNull::new_unchecked(start), payload);
             if let Err(e) = (*hdr).init(&alloc) {
                 // never initialised: the header must not be dropped
-                POOL.with(|p| p.borrow_mut().poison(slot));
+                POOL.with(|p| p.borrow_mut().poison(slot, hdr as *mut u8, total));
                 return Err(format!("init failed: {e:?}"));
             }
         }
@@ -141,8 +145,8 @@ impl<T> InBlock<T> {
         unsafe {
             core::ptr::copy_nonoverlapping(self.hdr as *const u8, hdr as *mut u8, self.total);
         }
-        let old = self.slot;
-        POOL.with(|p| p.borrow_mut().poison(old));
+        let (old, old_hdr, total) = (self.slot, self.hdr as *mut u8, self.total);
+        POOL.with(|p| p.borrow_mut().poison(old, old_hdr, total));
         self.slot = slot;
         self.hdr = hdr;
         self.relocations += 1;
@@ -152,8 +156,8 @@ impl<T> InBlock<T> {
 impl<T> Drop for InBlock<T> {
     fn drop(&mut self) {
         unsafe { core::ptr::drop_in_place(self.hdr) };
-        let s = self.slot;
-        POOL.with(|p| p.borrow_mut().poison(s));
+        let (s, h, t) = (self.slot, self.hdr as *mut u8, self.total);
+        POOL.with(|p| p.borrow_mut().poison(s, h, t));
     }
 }
 
@@ -161,6 +165,40 @@ impl<T> Drop for InBlock<T> {
 pub trait Holder<T> {
     fn obj(&mut self) -> &mut T;
     fn relocate(&mut self) -> bool;
+    /// the memory that holds the COMPLETE state of the object (header + payload), if the driver knows it
+    fn bytes(&mut self) -> Option<(*const u8, usize)> {
+        None
+    }
+}
+
+/// FNV-1a over the raw bytes of the given regions (padding and stale slots included: two objects with the
+/// same fingerprint are byte-identical and therefore behave identically from here on)
+pub fn fingerprint(regions: &[Option<(*const u8, usize)>]) -> Option<u64> {
+    let mut h: u64 = 0xcbf29ce484222325;
+    for r in regions {
+        let (p, n) = (*r)?;
+        for k in 0..n {
+            let b = unsafe { core::ptr::read_volatile(p.add(k)) };
+            h = (h ^ b as u64).wrapping_mul(0x100000001b3);
+        }
+        h = (h ^ 0xff).wrapping_mul(0x100000001b3);
+    }
+    Some(h)
+}
+
+/// a self-contained (inline) value owned by the driver: its bytes are its whole state
+pub struct OwnInline<T>(pub T);
+
+impl<T> Holder<T> for OwnInline<T> {
+    fn obj(&mut self) -> &mut T {
+        &mut self.0
+    }
+    fn relocate(&mut self) -> bool {
+        false
+    }
+    fn bytes(&mut self) -> Option<(*const u8, usize)> {
+        Some((&self.0 as *const T as *const u8, core::mem::size_of::<T>()))
+    }
 }
 
 pub struct Own<T>(pub T);
@@ -181,5 +219,8 @@ impl<T> Holder<T> for InBlock<T> {
     fn relocate(&mut self) -> bool {
         InBlock::relocate(self);
         true
+    }
+    fn bytes(&mut self) -> Option<(*const u8, usize)> {
+        Some((self.hdr as *const u8, self.total))
     }
 }
